@@ -304,6 +304,25 @@ func Describe(root *ggql.Root, o DescribeOpts) string {
 	if res["errors"] != nil {
 		roots += fmt.Sprintf(" errors=%v", res["errors"])
 	}
+	// the descriptions of the operation fields of the schema block
+	schObj := impliedSchema(root)
+	for _, t := range root.Types() {
+		if st, ok := t.(*ggql.Schema); ok {
+			schObj = st
+		}
+	}
+	if schObj != nil {
+		var ds []string
+		for _, f := range schObj.Fields() {
+			if f.Description() != "" {
+				ds = append(ds, fmt.Sprintf("%s.desc=%q", f.Name(), f.Description()))
+			}
+		}
+		sort.Strings(ds)
+		if len(ds) > 0 {
+			roots += " " + strings.Join(ds, " ")
+		}
+	}
 	blocks = append(blocks, roots)
 	sort.Strings(blocks)
 	return strings.Join(blocks, "\n")
